@@ -135,7 +135,23 @@ static void judge(const Case& c, const Obs& o, bool aborted, const Bytes& A, con
       if (!okc) { report(c.name.c_str(), "delivered-byte-never-held-by-source", what + mon::fmt(": character %zu is 0x%02x", i, ch)); return; }
     }
   } else {
-    // o.entry is a concatenation of elements (one per source cell / struct field)
+    // o.entry is a concatenation of elements (one per source cell / struct field).
+    // Where the delivered object has the source's own representation (decoding is the identity: arrays and ranges that are
+    // copied verbatim) the copy is a plain memory copy, which promises no atomicity per element: a concurrent write may tear
+    // an element, and what C09 asks is only that every delivered BYTE was taken from the source (in one of its states) before
+    // the verifier ran.  Elements that are decoded (another width / encoding) are read with one typed load each.
+    {
+      Bytes flat;
+      for (auto& e : ea) flat.insert(flat.end(), e.begin(), e.end());
+      if (flat == A && o.entry.size() == A.size()) {
+        for (size_t i = 0; i < A.size(); i++) {
+          unsigned char d = o.entry[i];
+          if (d != A[i] && d != B[i] && d != C[i]) { report(c.name.c_str(), "delivered-byte-never-held-by-source", what + mon::fmt(": byte %zu is 0x%02x", i, d)); return; }
+        }
+        n_ok++;
+        return;
+      }
+    }
     size_t pos = 0;
     for (size_t i = 0; i < ea.size() && pos + ea[i].size() <= o.entry.size(); i++) {
       Bytes d(o.entry.begin() + pos, o.entry.begin() + pos + ea[i].size());
